@@ -442,21 +442,16 @@ fn only_event<'a>(q: &'a EventQueue) -> (&'a SimEvent, u8) {
     }
 }
 
-#[kani::proof]
-#[kani::unwind(4)]
-#[kani::stub(alloc::fmt::format, format_stub)]
-#[kani::stub(rand::thread_rng, no_thread_rng)]
-fn s_stack_send_recv() {
+fn stack_send_recv(kind: u8) {
     let t0 = any_instant();
     let none: &[Machine] = &[];
     let side = state_with(none, t0);
     let mut other = state_with(none, t0);
     let delay = any_duration_upto(10_000_000);
-    let mut network = NetworkBottleneck::new(Network::new(delay, None), Duration::from_secs(1), None);
+    // what NetworkBottleneck::new(Network::new(delay, None), 1 s, None) builds (no rate limit)
+    let mut network = crate::network::verif_kani::small_bottleneck(Network::new(delay, None), Duration::from_secs(1), usize::MAX, Duration::ZERO);
     let mut sq = empty_queue();
     let now = any_instant();
-    let kind: u8 = kani::any();
-    kani::assume(kind < 3);
     let padding: bool = kani::any();
     let mut next = any_side_event(match kind { 0 => TriggerEvent::NormalSent, 1 => TriggerEvent::TunnelSent, _ => TriggerEvent::TunnelRecv }, now);
     if kind != 0 {
@@ -489,12 +484,28 @@ fn s_stack_send_recv() {
                 "C15: a received tunnel packet is delivered as a received packet of the same kind at the same time");
         }
     }
-    kani::cover!(kind == 1 && padding && delay == Duration::ZERO, "padding crossing a zero-delay network");
+    kani::cover!(padding == (kind != 0) && delay == Duration::ZERO, "zero-delay network (padding where the event can carry it)");
     core::mem::forget(sq);
     core::mem::forget(side);
     core::mem::forget(other);
     core::mem::forget(network);
 }
+
+macro_rules! stack_sr {
+    ($name:ident, $kind:expr) => {
+        #[kani::proof]
+        #[kani::unwind(4)]
+        #[kani::stub(alloc::fmt::format, format_stub)]
+        #[kani::stub(rand::thread_rng, no_thread_rng)]
+        #[kani::stub(crate::network::NetworkBottleneck::sample, crate::network::verif_kani::sample_unlimited)]
+        fn $name() {
+            stack_send_recv($kind);
+        }
+    };
+}
+stack_sr!(s_stack_normal_sent, 0);
+stack_sr!(s_stack_tunnel_sent, 1);
+stack_sr!(s_stack_tunnel_recv, 2);
 
 /// PaddingSent: either one padding TunnelSent is queued, or (replace) an already queued normal
 /// packet takes its place: the normal packet is re-labelled, never duplicated, never turned into padding.
@@ -509,7 +520,7 @@ fn s_stack_padding_sent() {
     let mut other = state_with(none, t0);
     side.blocking_until = any_opt_instant();
     side.blocking_bypassable = kani::any();
-    let mut network = NetworkBottleneck::new(Network::new(any_duration_upto(10_000_000), None), Duration::from_secs(1), None);
+    let mut network = crate::network::verif_kani::small_bottleneck(Network::new(any_duration_upto(10_000_000), None), Duration::from_secs(1), usize::MAX, Duration::ZERO);
     let mut sq = empty_queue();
     let now = any_instant();
     let is_client: bool = kani::any();
